@@ -583,7 +583,9 @@ def h7(ctx: Ctx):
                 continue
             a = e.args[0]
             folded = [t for t in walk(a) if t[0] == "call" and t[1][0] == "attr" and t[1][2] in ("lower", "upper", "casefold", "swapcase", "title", "capitalize")]
-            sites.setdefault(id(e.node), [e.node, show(e.value)[:70], []])[2].append(bool(folded))
+            # folding text that is known to hold no '%' cannot touch a zone id
+            harmless = all(truth(("cmp", "In", ("const", "%"), t[1][1]), e.state.facts) is False and t[1][2] in ("lower", "casefold") for t in folded)
+            sites.setdefault(id(e.node), [e.node, show(e.value)[:70], []])[2].append(bool(folded) and not harmless)
         for node, cons, flags in sites.values():
             n += 1
             ctx.instance(rule)
